@@ -12,7 +12,7 @@
    multiplication): rn with any positive weighting, uniform_discr, product
    spaces are instances (Instances.v, Lists.v). *)
 From Coq Require Import Reals List Bool.
-From Verif Require Import Base.Num Base.Vec C09.Model C09.IPS C09.Proofs C09.Instances C09.Lists C09.Pointwise C09.Matrix C09.Product.
+From Verif Require Import Base.Num Base.Vec C09.Model C09.IPS C09.Proofs C09.Instances C09.Lists C09.Pointwise C09.Matrix C09.Product C09.Moreau.
 Local Open Scope R_scope.
 
 (* T1 (gradient rules, all trees).  For every expression tree, of any depth and
@@ -182,6 +182,25 @@ Theorem separable_sum_sound : forall (S1 S2 : RSpace), SpaceLaws S1 -> SpaceLaws
   /\ is_grad (sprod sqrt S1 S2) (value (f_sepsum sqrt f1 f2)) x (gradient (f_sepsum sqrt f1 f2) x).
 Proof. exact sepsum_sound. Qed.
 Print Assumptions separable_sum_sound.
+
+(* MoreauEnvelope(f, sigma).  The code implements only the gradient
+   x/sigma - prox_{sigma f}(x)/sigma.  If the proximal p really minimises
+   y |-> f(y) + |x-y|^2/(2 sigma) and is non-expansive (what C07 establishes for
+   proximals of convex f), that gradient is the Frechet gradient of the envelope
+   x |-> f(p x) + |x - p x|^2/(2 sigma), everywhere, in any space. *)
+Theorem moreau_envelope_gradient_sound : forall (S : RSpace), SpaceLaws S ->
+  forall (F : car S -> R) (p : car S -> car S) (sigma : R), 0 < sigma ->
+  (forall x y, F (p x) + / (2 * sigma) * sinner S (ssub x (p x)) (ssub x (p x))
+               <= F y + / (2 * sigma) * sinner S (ssub x y) (ssub x y)) ->
+  (forall x y, norm S (ssub (p x) (p y)) <= norm S (ssub x y)) ->
+  forall x, leaf_sound (leaf_moreau S F p sigma) x.
+Proof. exact leaf_moreau_sound. Qed.
+(* the premises hold for f = L2NormSquared with proximal_l2_squared: x / (1 + 2 sigma) *)
+Theorem moreau_envelope_of_l2normsquared : forall (S : RSpace), SpaceLaws S ->
+  forall sigma : R, 0 < sigma -> forall x,
+  leaf_sound (leaf_moreau S (fun y => sinner S y y) (p_l2sq S sigma) sigma) x.
+Proof. exact moreau_l2sq_sound. Qed.
+Print Assumptions moreau_envelope_of_l2normsquared.
 
 (* T1/T2 (coordinate-wise leaves on weighted lists; value and gradient are the
    functions of Model.leaf_l1 / leaf_huber applied to the underlying list).
